@@ -20,7 +20,7 @@ func propC19() Property {
 		ID: "C19",
 		Explanation: "R1 (undefined references refused): in the dictionary builder, whenever every lookup of a referenced field/component name on a path missed, the path returns a non-nil error; no plain (non comma-ok) lookup result is dereferenced. " +
 			"R2 (vocabulary agreement): the element names and attributes used at each level of the nine shipped specs are exactly those bound by the XML* struct tags (an attribute the structs do not bind is silently dropped; a tag that occurs in no spec is a typo that drops data). " +
-			"R3 (required propagation guards): a component's/group's required fields are taken from a part only under that part's own Required(); a message's RequiredTags only under allowRequired ∧ field.Required(), where allowRequired is the enclosing component's Required(); part lists are appended in declaration order. R4: part-type exhaustiveness and the cycle guard (C09-K4, K5). R5 (errors surface): in the dictionary package no return hands back a nil error on a path whose condition establishes that an error result of a call was non-nil (a shadowed `err` after `break`, a forgotten assignment): the refusal R1 proves at the leaf must reach the caller of Parse.",
+			"R3 (required propagation guards): a component's/group's required fields are taken from a part only under that part's own Required(); a message's RequiredTags only under allowRequired ∧ field.Required(), where allowRequired is the enclosing component's Required(); part lists are appended in declaration order. R4: part-type exhaustiveness and the cycle guard (C09-K4, K5). R5 (errors surface): in the dictionary package no return hands back a nil error on a path whose condition establishes that an error result of a call was non-nil (a shadowed `err` after `break`, a forgotten assignment): the refusal R1 proves at the leaf must reach the caller of Parse. R6 (immutability): a store into a field of a FieldDef / ComponentType / MessageDef / FieldType targets an object allocated in the same function (or the dictionary under construction in the builder); definitions reached through a shared pointer are never adjusted. R7: the function that processes a field part of a message enters it into MessageDef.Fields on every path.",
 		NotDecided: "that the flattened field sets equal the specification's for every message (a semantic comparison over ~900 definitions), enumeration values.",
 		Rules: []RuleDef{
 			{ID: "C19-R1", Desc: "missed name lookups end in an error", Min: 3, Run: c19R1},
@@ -28,6 +28,8 @@ func propC19() Property {
 			{ID: "C19-R3", Desc: "required propagation guards", Min: 4, Run: c19R3},
 			{ID: "C19-R4", Desc: "part types exhaustive, cyclic components refused", Min: 2, Run: c19R4},
 			{ID: "C19-R5", Desc: "a detected build error is returned, never replaced by nil", Min: 5, Run: c19R5},
+			{ID: "C19-R6", Desc: "shared definitions are never mutated after construction", Min: 5, Run: c19R6},
+			{ID: "C19-R7", Desc: "every field part is entered into the message's field table", Min: 1, Run: c19R7},
 		},
 	}
 }
@@ -454,4 +456,110 @@ func c19R5(c *Ctx) {
 	if n == 0 {
 		c.Violation("", "-", "no-builder-returns", "no function of the dictionary package returns a nil error")
 	}
+}
+
+// C19-R6: definitions are immutable once built. FieldDef / ComponentType / MessageDef / FieldType
+// values are shared by pointer between every message, component and group that uses them, so a
+// store into one of their fields is allowed only on an object allocated in the same function
+// (its constructor). A later "adjustment" through a shared pointer changes the definition for
+// every other user.
+// C19-R7: the message constructor records every field part: the insert into the message's field
+// table is executed on every path through the function that processes a field part.
+func c19R6(c *Ctx) {
+	p := c.P
+	defTypes := map[string]bool{"FieldDef": true, "ComponentType": true, "MessageDef": true, "FieldType": true, "DataDictionary": true}
+	n := 0
+	for _, fn := range p.FuncsIn(modPath + "/datadictionary") {
+		ForEachInstr(fn, func(in ssa.Instruction) {
+			st, ok := in.(*ssa.Store)
+			if !ok {
+				return
+			}
+			fa, ok := st.Addr.(*ssa.FieldAddr)
+			if !ok {
+				return
+			}
+			tn := typeName(fa.X.Type())
+			if !defTypes[tn] {
+				return
+			}
+			n++
+			// the object: allocated here (new / composite literal), possibly through embedded struct paths
+			base := fa.X
+			for {
+				if f2, ok := base.(*ssa.FieldAddr); ok {
+					base = f2.X
+					continue
+				}
+				break
+			}
+			_, isAlloc := base.(*ssa.Alloc)
+			if cl, ok := base.(*ssa.Call); ok {
+				// the result of a constructor that returns a fresh object
+				if cal := cl.Call.StaticCallee(); cal != nil && p.InModule(cal) && returnsFresh(cal) {
+					isAlloc = true
+				}
+			}
+			isRecvBuilder := false
+			if par, ok := base.(*ssa.Parameter); ok && len(fn.Params) > 0 && par == fn.Params[0] && fn.Signature.Recv() != nil {
+				// methods of the builder that fill the dictionary under construction
+				isRecvBuilder = typeName(fn.Signature.Recv().Type()) == "builder"
+			}
+			if ld, ok := base.(*ssa.UnOp); ok {
+				// b.dict.X = … : the dictionary under construction, reached from the builder receiver
+				if o := p.Origin(ld); o.Kind == "field" {
+					if root, _ := o.FieldPath(); root != nil && root.Kind == "param" && root.Param == 0 && fn.Signature.Recv() != nil && typeName(fn.Signature.Recv().Type()) == "builder" {
+						isRecvBuilder = true
+					}
+				}
+			}
+			f := derefStruct(fa.X.Type()).Field(fa.Field)
+			c.Check(isAlloc || isRecvBuilder, FuncName(fn), p.InstrPos(st), "definition-mutated:"+tn+"."+cn(f), "stores only into a definition allocated in this function",
+				"field "+cn(f)+" of a "+tn+" that was not allocated in this function is overwritten ("+p.Origin(fa.X).String()+"): definitions are shared by pointer between all messages, components and groups that use them, so the change alters what the dictionary says everywhere else the definition is used")
+		})
+	}
+	if n == 0 {
+		c.Violation("", "-", "no-definition-stores", "no store into a dictionary definition found")
+	}
+}
+
+func c19R7(c *Ctx) {
+	p := c.P
+	fFields := p.Field(modPath+"/datadictionary", "MessageDef", "Fields")
+	n := 0
+	for _, fn := range p.FuncsIn(modPath + "/datadictionary") {
+		ForEachInstr(fn, func(in ssa.Instruction) {
+			mu, ok := in.(*ssa.MapUpdate)
+			if !ok || !p.Origin(mu.Map).Mentions(func(x *Org) bool { return x.Kind == "field" && x.Field == fFields }) {
+				return
+			}
+			n++
+			okAll := true
+			for _, b := range fn.Blocks {
+				if _, isRet := b.Instrs[len(b.Instrs)-1].(*ssa.Return); isRet && !mu.Block().Dominates(b) {
+					okAll = false
+				}
+			}
+			c.Check(okAll, FuncName(fn), p.InstrPos(mu), "field-part-recorded", "every field part handed to the processor is entered into the message's field table", "the function that processes a field part of a message can return without entering the field into MessageDef.Fields: a field the specification declares for the message is missing from the loaded definition (it is then rejected as not defined for the message type, and never demanded when required)")
+		})
+	}
+	if n == 0 {
+		c.Violation("", "-", "no-field-table-insert", "nothing inserts into MessageDef.Fields")
+	}
+}
+
+// returnsFresh: every return of fn hands back an object allocated in fn.
+func returnsFresh(fn *ssa.Function) bool {
+	n := 0
+	for _, b := range fn.Blocks {
+		r, ok := b.Instrs[len(b.Instrs)-1].(*ssa.Return)
+		if !ok || len(r.Results) == 0 {
+			continue
+		}
+		n++
+		if _, isAlloc := stripConv(r.Results[0]).(*ssa.Alloc); !isAlloc {
+			return false
+		}
+	}
+	return n > 0
 }
